@@ -31,7 +31,8 @@ Inductive case :=
 | Lex (s : list Z) (o : lex_out)
 | Lit (f : Z) (s : list Z) (o : lit_out)
 | Api (kind : Z) (feat : list Z) (o : api_out).
-(* feat = [ f0 max bracket / prefix-keyword nesting; f1 longest run of consecutive comments;
+(* feat = [ f0 max nesting: ( [ brackets, { [ inside string literals (JSON text), count of NOT / CASE / SELECT keywords;
+            f1 longest run of consecutive comments;
             f2 non-ASCII character inside a quoted string or a text parameter (0/1);
             f3 number of binary-operator characters and AND/OR/UNION/JOIN keywords (chain length);
             f4 a Decimal parameter with scale >= 39 or < 0 (0/1); f5 an INSERT / UPDATE is present (0/1);
